@@ -1,3 +1,4 @@
+from copy import copy
 from typing import Any, Dict, List
 
 from vtlengine.DataTypes import binary_implicit_promotion
@@ -42,7 +43,9 @@ class Set(Operator):
         result_components: Dict[str, Any] = {}
         for operand in operands:
             if len(result_components) == 0:
-                result_components = operand.components
+                # copies: the promoted types and nullability below belong to the result, not to
+                # the first operand (the dataset stored for the other statements)
+                result_components = {name: copy(comp) for name, comp in operand.components.items()}
             else:
                 for comp_name, comp in operand.components.items():
                     current_comp = result_components[comp_name]
